@@ -68,7 +68,11 @@ using namespace cds_utils;
 #include "utils/Coder/StatCoder.h"
 #include "utils/LogSequence.h"
 
+#if defined(LIBCSD_VERIF) && defined(LIBCSD_VERIF_MEMALLOC)
+#define MEMALLOC LIBCSD_VERIF_MEMALLOC
+#else
 #define MEMALLOC 32768
+#endif
 
 class StringDictionaryHHTFC : public StringDictionary {
 public:
